@@ -21,7 +21,7 @@ TECHNIQUE = "model-based property testing: Hypothesis-generated receive/send his
 RULE = (
     "history = list of ops (genuine frame with seq relative to the sender's last valid number, replay of an earlier frame, forged MAC, wrong key, unknown sender, "
     "secured frame to an unkeyed group, both algorithms) over 1-3 senders and 3 groups; non-trivial = history with a replay after a MAC failure, or with two senders interleaved, "
-    "or an outgoing run crossing the 48-bit limit; distinct by history"
+    "or outgoing sends interleaved with the receive history (which must not create or move sender-table entries), or an outgoing run crossing the 48-bit limit; distinct by history"
 )
 LEVEL_TEXT = "Sampled histories against an explicit reference model of the per-sender last valid sequence number; every delivery decision of the real receive path is compared with the model, so a single wrong comparison, a counter advanced by a rejected frame or a missing sender check shows up as soon as a history exercises it."
 LEVEL_NOTE = "Frames are built with xknx's own SecureData (its conformance is C19's job); a forged MAC passing by chance has probability 2^-32 per frame."
@@ -52,6 +52,8 @@ _op = st.one_of(
     st.tuples(st.just("forged"), st.integers(0, 2), st.integers(1, 1000), st.integers(0, 1), st.integers(0, 65535), st.integers(0, 31)),
     st.tuples(st.just("wrongkey"), st.integers(0, 2), st.integers(1, 1000), st.integers(0, 1), st.integers(0, 65535)),
     st.tuples(st.just("unknown"), st.integers(1, 10**6), st.integers(0, 1), st.integers(0, 65535)),
+    # the receiving instance itself sends a secured telegram (source: an unlisted own address or a listed sender address)
+    st.tuples(st.just("send"), st.integers(0, 1), st.integers(0, 1), st.integers(0, 255)),
 )
 
 
@@ -67,7 +69,13 @@ def run_history(ctx, h) -> dict:
     """Interpret one history against the real receive path and the model. Returns class flags."""
     from vk.dsec import AUTH, ENC, Receiver, secure_frame, with_loop
 
-    flags = {"replay_after_macfail": False, "interleaved": False}
+    from xknx.cemi import CEMIFlags, CEMILData
+    from xknx.dpt import DPTArray
+    from xknx.telegram import GroupAddress, IndividualAddress
+    from xknx.telegram.apci import GroupValueWrite
+    from xknx.telegram.tpci import TDataGroup
+
+    flags = {"replay_after_macfail": False, "interleaved": False, "send_interleaved": False}
 
     def body():
         init = h["init"]
@@ -75,11 +83,28 @@ def run_history(ctx, h) -> dict:
         last = {SENDERS[i]: init[i] for i in range(n)}
         rx = Receiver(KEYS, dict(last))
         frames: list[dict] = []
+        sent: list[int] = []
         macfail_seen = False
         prev_sender = None
         try:
             for step, op in enumerate(h["ops"]):
                 kind = op[0]
+                if kind == "send":
+                    # outgoing traffic must neither create nor move entries of the sender table, and carries increasing numbers
+                    src = UNKNOWN if op[1] == 0 else SENDERS[0]
+                    data = CEMILData(flags=CEMIFlags(), src_addr=IndividualAddress(src), dst_addr=GroupAddress(GROUPS[op[2]]), tpci=TDataGroup(), payload=GroupValueWrite(DPTArray((op[3],))))
+                    try:
+                        out = rx.ds.outgoing_cemi(data)
+                    except Exception as e:  # noqa: BLE001
+                        ctx.fail(f"C17:outgoing-raised:{exc_site(e)}", h, f"step {step} {op}: {e!r}")
+                        return
+                    seq_out = int.from_bytes(out.payload.secured_data.sequence_number_bytes, "big")
+                    if sent and seq_out <= sent[-1]:
+                        ctx.fail("C17:outgoing-wrap-or-not-increasing", h, f"step {step}: outgoing sequence numbers {sent[-3:]} then {seq_out}")
+                        return
+                    sent.append(seq_out)
+                    flags["send_interleaved"] = True
+                    continue
                 if kind == "replay":
                     if not frames:
                         continue
@@ -161,7 +186,7 @@ def run_history(ctx, h) -> dict:
 
 def _oracle(ctx, h) -> None:
     flags = run_history(ctx, h)
-    nt = flags["replay_after_macfail"] or flags["interleaved"]
+    nt = flags["replay_after_macfail"] or flags["interleaved"] or flags["send_interleaved"]
     cls = [k for k, v in flags.items() if v] or ["plain"]
     ctx.case(repr(h), nontrivial=nt, cls=cls, sample=h if nt and len(h["ops"]) <= 6 else None)
 
